@@ -30,8 +30,20 @@ claim("C02",
       "Trusted: rustc MIR; wrapper method names denote their effect. Not decided: equality of index content and documents over histories; BM25/HNSW answers; phantom absence after recovery.",
       "sibling/table agreement over MIR (ADT field enumeration, match-arm extraction by dominating variant edges), must-pass-through with path-sensitive feasibility", "DESIGN §4 C02")
 
+claim("C04",
+      "Decides the structural necessary conditions of uniqueness and rejection-leaves-no-trace: in-lock re-check of the unique constraint with a failing edge that cannot reach the append, "
+      "insert-new-before-remove-old in index updates, validate-before-mutate ordering in add/update, unique-indexes-first registration, replay removes recorded images before re-insert "
+      "(rollback completeness is decided under C02).",
+      "Trusted: rustc MIR; DashMap::entry holds the shard lock while the Entry lives. Not decided: absence of duplicates under actual interleavings; value-level 'no trace'.",
+      "MIR dominance between entry-lock acquisition, constraint read and append; Ok/Err edge ordering; must-pass-through", "DESIGN §4 C04")
+claim("C05",
+      "Decides the lock discipline the serialization argument rests on: gate mode per entry class and guard liveness across all effect sites, stripe lock across the read-modify-write, "
+      "single atomic id allocation, cache-generation bump on every backend write success path and generation-guarded cache fill/hit, extension gate ordering and who-may-call of the claimed metadata writers.",
+      "Trusted: rustc MIR; tokio/parking_lot locks; guard released at Drop. Not decided: linearizability, return values, what a concurrent flush persisted.",
+      "guard-liveness must-hold dataflow over MIR, call-graph effect classes, must-pass-through on success edges, who-may-call tables", "DESIGN §4 C05")
+
 _pending = "rules for this property are not built yet in this round (see DESIGN §10 order of work); not claimed until they are"
-for pid in ["C04", "C05", "C07", "C08", "C09", "C10", "C11", "C12", "C13", "C14", "C15", "C16", "C17", "C18", "C19"]:
+for pid in ["C07", "C08", "C09", "C10", "C11", "C12", "C13", "C14", "C15", "C16", "C17", "C18", "C19"]:
     NA[pid] = _pending
 NA["C20"] = ("every clause is an algebraic law over runtime multisets of assertions (permutation invariance, monotone score fold, thresholds); "
              "no clause is visible in the shape of the code, so static analysis cannot decide it (DESIGN §6)")
